@@ -331,6 +331,23 @@ theorem activeIn_submit_rejected {w w' : World} {k : Err} {sym : Nat} {side : Si
   rw [ha]
   exact h id hid
 
+/-- the engine's registry RESET (after `_execute_cancel`, when a position closes or resting entries are given up): if no
+    order listed for the symbol is still active — which is what `C10.execute_cancel_leaves_nothing_active` proves of the
+    state the reset is applied to — emptying the symbol's registry keeps the invariant -/
+theorem activeIn_reset (w : World) (sym : Nat) (h : ActiveIn w)
+    (hnone : ∀ id ∈ getD w.active sym, (w.orders.getD id default).status ≠ .active) :
+    ActiveIn { w with active := upd w.active sym (fun _ => []) } := by
+  intro id hid
+  obtain ⟨h1, h2⟩ := h id hid
+  refine ⟨by show _ < (upd w.active sym _).length; rw [C03.upd_len]; exact h1, ?_⟩
+  intro ha
+  show id ∈ getD (upd w.active sym (fun _ => [])) (w.orders.getD id default).sym
+  by_cases hs : sym = (w.orders.getD id default).sym
+  · have hin := h2 ha
+    rw [← hs] at hin
+    exact absurd ha (hnone id hin)
+  · rw [C03.getD_upd_other _ _ _ _ hs]; exact h2 ha
+
 /-- the account operations of a session -/
 inductive AOp where
   | submit (sym : Nat) (side : Side) (type : OrderType) (q p : Rat) (ro : Bool)
